@@ -685,6 +685,9 @@ class Interp(object):
                 return BoundM(fv, obj.cls)
             return BoundM(fv, obj)
         v = self.class_entry_value(c, name, e)
+        if isinstance(v, FuncV) and getattr(v, 'node', None) is not None and not isinstance(v.node, ast.Lambda) and getattr(v, 'cls', None) is not None:
+            # class attribute bound to a plain function defined in another class (e.g. `rotation_matrix = Base.rotation_matrix`): a method
+            return BoundM(v, obj)
         return v
 
     def setattr(self, obj, name, val, fr):
